@@ -1,18 +1,28 @@
 """C09 - Cardinalities: normal form, exact violation reports, never enforced, persisted."""
 
 LEVEL = 'proof'
-CONTRACT_MODULES = ['contracts.c_util']
+CONTRACT_MODULES = ['contracts.c_util', 'contracts.c_parsers']
 EXPLANATION = ('Sidecar contracts on the real cardinality functions; obligations generated from the current '
                'source by symbolic execution and discharged by cvc5/z3 for all inputs.')
 DEDUCTIVE = [
     'odml/util.py::format_cardinality',
+    'odml/tools/xmlparser.py::parse_cardinality',
+    'odml/tools/dict_parser.py::parse_cardinality',
+    'odml/tools/dict_parser.py::parse_cardinality#roundtrip',
 ]
+# contracts whose VCs the solvers leave undecided (string theory); bounded stand-in only
+BOUNDED_ONLY = ['odml/tools/xmlparser.py::parse_cardinality#roundtrip']
 TRUSTED = []
 
 
 def bounded_jobs(tier, seed):
+    def pure(fid, mod, gen):
+        return {'name': fid + '#bounded', 'module': 'rcc.bounded_pure', 'func': 'run',
+                'kwargs': {'contract_module': mod, 'fid': fid, 'gen': gen, 'tier': tier, 'seed': seed}}
     return [
-        {'name': 'odml/util.py::format_cardinality#bounded', 'module': 'rcc.bounded_pure', 'func': 'run',
-         'kwargs': {'contract_module': 'contracts.c_util', 'fid': 'odml/util.py::format_cardinality',
-                    'gen': 'gen_card_inputs', 'tier': tier, 'seed': seed}},
+        pure('odml/util.py::format_cardinality', 'contracts.c_util', 'gen_card_inputs'),
+        pure('odml/tools/xmlparser.py::parse_cardinality', 'contracts.c_parsers', 'gen_xml_card_text'),
+        pure('odml/tools/xmlparser.py::parse_cardinality#roundtrip', 'contracts.c_parsers', 'gen_xml_card_roundtrip'),
+        pure('odml/tools/dict_parser.py::parse_cardinality', 'contracts.c_parsers', 'gen_dict_card'),
+        pure('odml/tools/dict_parser.py::parse_cardinality#roundtrip', 'contracts.c_parsers', 'gen_dict_card_roundtrip'),
     ]
